@@ -109,6 +109,23 @@ func gen(r *hx.Rng, n int, tier string) []string {
 		if r.Chance(1, 12) {
 			ops = append(ops, fmt.Sprintf("teardown %d", r.Range(1, 32)))
 		}
+		if r.Chance(1, 4) { // register / cancel / tick interleavings on one long-lived ticker
+			var evs []string
+			nreg := 0
+			target := r.Range(3, 8)
+			for len(evs) < 40 && (nreg < target || r.Chance(2, 3)) {
+				switch c := r.Intn(10); {
+				case c < 3 && nreg < target:
+					evs = append(evs, "r")
+					nreg++
+				case c < 5 && nreg > 0:
+					evs = append(evs, fmt.Sprintf("c%d", r.Intn(nreg)))
+				default:
+					evs = append(evs, "t")
+				}
+			}
+			ops = append(ops, "reg "+strings.Join(evs, ","))
+		}
 	}
 	return ops
 }
@@ -263,9 +280,155 @@ func execTeardown(arg string) (string, string) {
 	return obs, "teardown"
 }
 
+// reg <ev,ev,...>: ONE long-lived ticker; events r (schedule one more retransmission with its own
+// context: real ScheduleRetransmissions, standard strategy), c<i> (cancel the context of the i-th
+// scheduled one), t (tick). obs: per scheduled retransmission the tick numbers at which its
+// retransmitFn ran:  0:1.2.3|1:2.3|2:-
+func execReg(arg string) (string, string) {
+	type ev struct {
+		kind byte
+		i    int
+	}
+	var evs []ev
+	nreg := 0
+	for _, t := range hx.SplitList(arg) {
+		switch {
+		case t == "r":
+			evs = append(evs, ev{'r', 0})
+			nreg++
+		case t == "t":
+			evs = append(evs, ev{'t', 0})
+		case len(t) >= 2 && t[0] == 'c':
+			v, err := strconv.ParseUint(t[1:], 10, 16)
+			if err != nil || t[1] == '+' || int(v) >= nreg {
+				return "bad-op", "bad"
+			}
+			evs = append(evs, ev{'c', int(v)})
+		default:
+			return "bad-op", "bad"
+		}
+	}
+	if nreg > 12 || len(evs) > 80 {
+		return "bad-op", "bad"
+	}
+	ticks := make(chan uint64)
+	ticker := retransmission.NewTicker(ticks)
+	sentinel := &counting{}
+	sctx, scancel := context.WithCancel(context.Background())
+	defer scancel()
+	retransmission.ScheduleRetransmissions(sctx, logger, ticker, func() error { return nil }, sentinel)
+	stall := ""
+	if !waitFor(func() bool { return retransmission.VerifC17HandlerCount(ticker) == 1 }) {
+		stall = "sentinel-register"
+	}
+	base := runtime.NumGoroutine()
+
+	mapCount := 1 // handlers the ticker holds: sentinel + scheduled - dropped at a tick after their cancellation
+	type sched struct {
+		cancel    context.CancelFunc
+		cancelled bool
+		removed   bool
+		mu        sync.Mutex
+		at        []uint64
+	}
+	var hs []*sched
+	var calls int64
+	tickNo := uint64(0)
+	curTick := uint64(0) // written between ticks only (all goroutines of a tick are awaited)
+	removedAfterCancel := false
+	for _, e := range evs {
+		switch e.kind {
+		case 'r':
+			h := &sched{}
+			ctx, cancel := context.WithCancel(context.Background())
+			h.cancel = cancel
+			hs = append(hs, h)
+			retransmission.ScheduleRetransmissions(ctx, logger, ticker, func() error {
+				h.mu.Lock()
+				h.at = append(h.at, atomic.LoadUint64(&curTick))
+				h.mu.Unlock()
+				atomic.AddInt64(&calls, 1)
+				return nil
+			}, retransmission.WithStandardStrategy())
+			// ScheduleRetransmissions registers asynchronously (go ticker.onTick): wait for it
+			mapCount++
+			if !waitFor(func() bool { return retransmission.VerifC17HandlerCount(ticker) == mapCount }) && stall == "" {
+				stall = "register"
+			}
+		case 'c':
+			if !hs[e.i].cancelled {
+				hs[e.i].cancelled = true
+				hs[e.i].cancel()
+			}
+		case 't':
+			live := int64(0)
+			for k, h := range hs {
+				if !h.cancelled {
+					live++
+				} else if !h.removed {
+					h.removed = true
+					mapCount--
+					if k < len(hs)-1 {
+						removedAfterCancel = true
+					}
+				}
+			}
+			tickNo++
+			atomic.StoreUint64(&curTick, tickNo)
+			want := atomic.LoadInt64(&calls) + live
+			ticks <- tickNo
+			if !waitFor(func() bool { return atomic.LoadInt64(&sentinel.n) == int64(tickNo) }) && stall == "" {
+				stall = "sentinel"
+			}
+			retransmission.VerifC17HandlerCount(ticker) // the loop iteration of this tick is over
+			if !waitFor(func() bool { return atomic.LoadInt64(&calls) >= want }) && stall == "" {
+				stall = "lost-tick"
+			}
+			settle(func() bool { return runtime.NumGoroutine() <= base })
+		}
+	}
+	for _, h := range hs {
+		h.cancel()
+	}
+	scancel()
+	close(ticks)
+	settle(func() bool { return runtime.NumGoroutine() < base })
+	var out []string
+	for k, h := range hs {
+		h.mu.Lock()
+		at := append([]uint64(nil), h.at...)
+		h.mu.Unlock()
+		sort.Slice(at, func(i, j int) bool { return at[i] < at[j] })
+		ss := "-"
+		if len(at) > 0 {
+			var p []string
+			for _, v := range at {
+				p = append(p, fmt.Sprint(v))
+			}
+			ss = strings.Join(p, ".")
+		}
+		out = append(out, fmt.Sprintf("%d:%s", k, ss))
+	}
+	obs := strings.Join(out, "|")
+	if len(out) == 0 {
+		obs = "-"
+	}
+	if stall != "" {
+		obs += " stall:" + stall
+	}
+	tag := "reg"
+	if removedAfterCancel {
+		tag += "+reuse"
+	}
+	return obs, tag
+}
+
 func exec(op string) (string, string) {
 	atomic.StoreInt32(&opStalled, 0)
 	f := strings.Fields(op)
+	if len(f) == 2 && f[0] == "reg" {
+		return execReg(f[1])
+	}
 	if len(f) == 2 && f[0] == "teardown" {
 		return execTeardown(f[1])
 	}
